@@ -76,7 +76,7 @@ def rules(R, F, CG, own=False, only=None):
         if s["mode"] == "W" and dbname.split("::")[-1] in (s["call"].func.get("self_ty") or ""):
             db_lock = s["lock"]
     R.say("C10: database = %s, db lock = %s, %d slot windows" % (dbname, db_lock, len(windows)))
-    R.floor("slot_windows", len(windows), 3)
+    R.floor("slot_windows", len(windows), 2)      # 3 on the pinned tree; the two simulation windows may share one take/swap frame
 
     def forbidden(e):
         k, subj = e
